@@ -220,4 +220,14 @@ def VW.col (m : Mode) (v : VW) (c : Nat) : Res Col := do
   let (w, skip) ← v.colParams m c
   pure ⟨w, skip⟩
 
+/-- `From<TooDeeView<T>> for TooDee<T>` src/toodee.rs (and the identical `From<TooDeeViewMut<T>>`):
+    `Vec::with_capacity(num_cols * num_rows)`, then `extend_from_slice` row by row. -/
+def VW.toOwned {α : Type} (m : Mode) (v : VW) (buf : List α) : Res (TD α) := do
+  let numCols := v.numCols
+  let numRows := v.numRows
+  let _cap ← umul m numCols numRows
+  let rows ← v.rows m
+  let ws ← rows.collect (rows.v.len + 2)
+  pure ⟨(ws.map fun w => (buf.drop w.off).take w.len).flatten, numRows, numCols⟩
+
 end Toodee
